@@ -64,6 +64,16 @@ def main(tier, seed, replay=None):
                              if any(t.cls in core.SLASHY for t in s.tokens)),
                             key=lambda s: s.key())
     rep.notes['deep_sentences'] = len(themes['deep'])
+    # the slash sentences once more inside function bodies that stand in
+    # call arguments, groupings, assignments, declarations (sentence.embed)
+    import random
+    rng = random.Random(seed)
+    tmpls = gen.templates(rep)
+    pool = [s for n in THEMES for s in themes[n]
+            if any(t.cls in core.SLASHY for t in s.tokens)
+            and (tier != 'quick' or hash(s.key()) % 4 == seed % 4)]
+    themes['embedded'] = gen.embeddings(pool, tmpls, rng, 1)
+    rep.notes['embedded_sentences'] = len(themes['embedded'])
     rep.mark('generated')
     plain = [k for k in core.PLAIN_KINDS]
     brk = core.BREAK_KINDS
@@ -71,7 +81,7 @@ def main(tier, seed, replay=None):
     meta = []
     distinct = set()
     n = 0
-    for name in THEMES + ['deep']:
+    for name in THEMES + ['deep', 'embedded']:
         for s in themes[name]:
             idx = [t.idx for t in s.tokens if t.cls in core.SLASHY]
             if not idx:
